@@ -17,7 +17,7 @@
 From Coq Require Import List NArith ZArith Bool Lia.
 Import ListNotations.
 Require Import V.models.TaskEngine V.proofs.TaskEngineProofs V.proofs.TaskEngineStatus V.proofs.TaskEngineReady
-               V.proofs.TaskEngineDoing V.proofs.TaskEngineFuel V.proofs.TaskEngineLive.
+               V.proofs.TaskEngineDoing V.proofs.TaskEngineFuel V.proofs.TaskEngineLive V.proofs.TaskEnginePass.
 
 (* reverse-order undo: in every execution, whenever an undo handler is freshly started (Undo->Undoing), every task
    that waited on it had a ready status (Done/Undone/Hold/Error) at that instant, i.e. had finished or never ran *)
@@ -69,8 +69,7 @@ Print Assumptions C01_abort_fuel.
    unready changes only and a do handler that answers Wait waits to become Done (tame): in the reached state, if no
    handler is running, no task sits in Wait and no task is scheduled for later, then either every task is ready or
    the body of the Ensure loop FIRES for some task t of the change: it writes t's status or starts t's handler.
-   PARTIAL in one respect: stated for the loop body of one task, not for a whole pass (that later iterations of the
-   same pass cannot revert the effect is not proved). *)
+   This is the statement for one iteration; C01_no_deadlock_pass below lifts it to a whole pass. *)
 Theorem C01_no_deadlock : forall (g : list tdesc) (rk : nat -> nat) (es : list event),
   g <> [] -> closed g -> (forall t w, In w (waits_g g t) -> rk w < rk t) ->
   tame (init_state g) es ->
@@ -80,6 +79,28 @@ Theorem C01_no_deadlock : forall (g : list tdesc) (rk : nat -> nat) (es : list e
   exists t, t < length (tasks s) /\ (st (ensure_one s t) t <> st s t \/ In t (running (ensure_one s t))).
 Proof. exact no_deadlock_total. Qed.
 Print Assumptions C01_no_deadlock.
+
+(* C01_no_deadlock for a WHOLE Ensure pass. pm is the progress measure  sum over the tasks of the position of their
+   status along  Do < Doing < Abort < Undo < Undoing < {Done, Hold, Undone, Error, Wait}  plus the number of tombs.
+   Every iteration of the Ensure loop, in every state, leaves pm unchanged only if it leaves the state unchanged, and
+   otherwise raises it (later iterations cannot undo the status write or the handler start of an earlier one). Hence,
+   in the situation of C01_no_deadlock, a pass over ANY order that visits every task of the change strictly raises pm
+   - in particular it changes the state - unless every task is ready. *)
+Theorem C01_no_deadlock_pass : forall (g : list tdesc) (rk : nat -> nat) (es : list event) (order : list nat),
+  g <> [] -> closed g -> (forall t w, In w (waits_g g t) -> rk w < rk t) ->
+  tame (init_state g) es ->
+  let s := run_events (init_state g) es in
+  running s = [] -> (forall t, st s t <> Wait) -> (forall t, gate_open s t = true) ->
+  (forall t, t < length (tasks s) -> In t order) ->
+  all_ready (tasks s) = true \/ (pm s < pm (ensure_pass s order) /\ ensure_pass s order <> s).
+Proof. exact no_deadlock_pass. Qed.
+Print Assumptions C01_no_deadlock_pass.
+
+(* monotonicity of the Ensure loop body, for every state and every task *)
+Theorem C01_ensure_monotone : forall (s : state) (t : nat),
+  pm s <= pm (ensure_one s t) /\ (ensure_one s t = s \/ pm s < pm (ensure_one s t)).
+Proof. exact pm_ensure_one. Qed.
+Print Assumptions C01_ensure_monotone.
 
 (* the error path: when the handler of a running task returns an error, that task ends in Error (and nothing panics) *)
 Theorem C01_failed_task_ends_in_error : forall (s : state) (t : nat),
